@@ -35,15 +35,16 @@ RT_ONE = 1e-9
 
 
 def _plan(tier):
-    """curves are (k_1, SD); SD = 125 / 132.5 / 100 / 60 put the knee exactly on a class amplitude at level 1"""
+    """curves are (k_1, SD); SD = 125 / 132.5 / 100 / 60 put the knee exactly on a class amplitude at level 1; level 100
+    ("scaled to any load level") puts the upper classes where the finite-life line gives N(S) < 1 cycle"""
     if tier == "quick":
         return [dict(curves=((5.0, 100.0), (3.0, 125.0), (5.0, 100.0, 0.1, 4.0, 1.25)), edges=("regular", "irregular"), counts=(0.0, 1.0, 5000.0),
-                     forms=("histogram", "collective"), levels=(0.5, 1.0, 3.0), perms="rotations+reverse",
+                     forms=("histogram", "collective"), levels=(0.5, 1.0, 3.0, 100.0), perms="rotations+reverse",
                      linear_on_first_curves=1)]
     return [dict(curves=((5.0, 100.0), (3.0, 125.0), (8.0, 132.5), (3.0, 80.0), (5.0, 125.0), (8.0, 100.0),
                          (5.0, 100.0, 0.1, 4.0, 1.25), (3.0, 125.0, 0.9, 3.0, 1.1), (5.0, 100.0, 0.025, 1.0, 1.25)),
                  edges=("regular", "irregular"), counts=(0.0, 1.0, 5000.0),
-                 forms=("histogram", "collective", "histogram-with-mean"), levels=(0.5, 1.0, 1.6, 3.0), perms="all",
+                 forms=("histogram", "collective", "histogram-with-mean"), levels=(0.5, 1.0, 1.6, 3.0, 100.0), perms="all",
                  linear_on_first_curves=2),
             dict(curves=((5.0, 100.0), (3.0, 60.0)), edges=("regular5",), counts=(0.0, 1.0, 50.0),
                  forms=("histogram", "collective"), levels=(0.5, 1.0, 1.6, 3.0), perms="rotations+reverse",
